@@ -715,7 +715,11 @@ func (c *Ctx) notExistMeansAbsent(rule string) {
 					name = g.Pkg.Pkg.Path() + "." + g.Name()
 				}
 			case *ssa.Const:
-				name = types.TypeString(x.Type(), nil) + "(" + x.Value.ExactString() + ")"
+				if x.Value != nil {
+					name = types.TypeString(x.Type(), nil) + "(" + x.Value.ExactString() + ")"
+				} else {
+					name = "nil"
+				}
 			}
 			okk := false
 			switch name {
@@ -875,6 +879,7 @@ func (c *Ctx) tooLargeIsDecidedByTheLimits(rule string) {
 	}
 	c.FuncsSeen[fname(f)] = true
 	n := 0
+	tooLargeSeen := map[string]int{}
 	allInstrs(f, func(i ssa.Instruction) {
 		cl, ok := i.(*ssa.Call)
 		if !ok || !isFreshError(cl) {
@@ -896,6 +901,7 @@ func (c *Ctx) tooLargeIsDecidedByTheLimits(rule string) {
 		n++
 		// the nearest branch this refusal depends on
 		decided := false
+		limitName := ""
 		for b := cl.Block().Idom(); b != nil && !decided; b = b.Idom() {
 			ifi, ok := b.Instrs[len(b.Instrs)-1].(*ssa.If)
 			if !ok {
@@ -903,6 +909,7 @@ func (c *Ctx) tooLargeIsDecidedByTheLimits(rule string) {
 			}
 			usesLimit := false
 			var operands func(v ssa.Value, d int)
+			_ = limitName
 			operands = func(v ssa.Value, d int) {
 				if d > 6 || v == nil {
 					return
@@ -910,6 +917,7 @@ func (c *Ctx) tooLargeIsDecidedByTheLimits(rule string) {
 				if c2, ok := v.(*ssa.Call); ok {
 					if c2.Call.IsInvoke() && strings.HasPrefix(c2.Call.Method.Name(), "GetMax") {
 						usesLimit = true
+						limitName = c2.Call.Method.Name()
 					}
 					return
 				}
@@ -931,9 +939,13 @@ func (c *Ctx) tooLargeIsDecidedByTheLimits(rule string) {
 				}
 			}
 		}
-		key := fname(f) + "/too-large"
-		if n > 1 {
-			key += "#" + itoa(int64(n))
+		key := fname(f) + "/too-large/" + limitName
+		if !decided {
+			key = fname(f) + "/too-large/a-threshold-of-its-own"
+		}
+		tooLargeSeen[key]++
+		if tooLargeSeen[key] > 1 {
+			key += "#" + itoa(int64(tooLargeSeen[key]))
 		}
 		c.check(decided, rule, key, c.ipos(cl), "the refusal is decided by a comparison with a configured limit",
 			"this 'too large' refusal is not decided by a comparison with a value of the configured limits but by a threshold of the function's own: a tree that is within every limit (file size, total size, count, depth) is refused for what one of its files contains — 3 MiB of 0xFF padding deflate beyond 100:1 — the extraction stops there with an empty file in its place, and the rest of the tree is missing")
